@@ -544,7 +544,11 @@ func ownDisposition(r *Run, fn *ssa.Function, e *feEnd, acq *ssa.Call, R ssa.Val
 				return true, "wrapped by " + wrappedBy + " (failure edge covered by the close-on-error defer)"
 			}
 			for _, ex := range ownExceptions {
-				if strings.HasSuffix(shortFuncName(fn), strings.TrimPrefix(ex.Fn, "internal/")) || shortFuncName(fn) == ex.Fn {
+				fpk := fn.Pkg
+				if fpk == nil && fn.Parent() != nil {
+					fpk = fn.Parent().Pkg
+				}
+				if fpk != nil && strings.HasPrefix(ex.Fn, strings.TrimPrefix(fpk.Pkg.Path(), modPath+"/")+".") {
 					if wrappedBy == ex.Callee {
 						r.Notes = append(r.Notes, "OWN exception "+ex.Fn+" -> "+ex.Callee+": "+ex.Reason)
 						return true, "wrapped by " + wrappedBy + " (recorded exception for the failure edge)"
